@@ -30,7 +30,7 @@ type BatchCase struct {
 	M        int    `json:"m"`
 	Priority []int  `json:"priority"`  // release priority per request token (calls are released by the smallest token priority they carry)
 	FailTok  int    `json:"fail_tok"`  // the HTTP call carrying this token fails (-1: none)
-	FailKind string `json:"fail_kind"` // transport | status500 | notjson | errors
+	FailKind string `json:"fail_kind"` // transport | status500 | notjson | errors | errors-null-entry
 	Files    []int  `json:"files"`     // tokens whose request carries an upload (sent as multipart, one call each)
 	// HoldFirst: the first HoldFirst chunk results ready for the reducer are held back until a later one is ready too
 	// (the reducer does not have to see results in completion order; steered at the verif hook point amr.worker.sendRes)
@@ -120,15 +120,20 @@ func (bt *batchTransport) RoundTrip(req *http.Request) (*http.Response, error) {
 			return jsonResp(500, []byte(`{"errors":[{"message":"boom"}]}`)), nil
 		case "notjson":
 			return jsonResp(200, []byte(`<html>`)), nil
-		case "errors":
+		case "errors", "errors-null-entry":
+			var errs interface{} = []interface{}{map[string]interface{}{"message": "downstream says no"}}
+			if bt.c.FailKind == "errors-null-entry" {
+				errs = []interface{}{nil} // an errors list whose only entry is null is still a failure
+			}
 			if single {
-				return jsonResp(200, []byte(`{"data":null,"errors":[{"message":"downstream says no"}]}`)), nil
+				b, _ := json.Marshal(map[string]interface{}{"data": nil, "errors": errs})
+				return jsonResp(200, b), nil
 			}
 			out := make([]map[string]interface{}, len(tokens))
 			for i, tk := range tokens {
 				out[i] = map[string]interface{}{"data": map[string]interface{}{"echo": tk}}
 				if tk == bt.c.FailTok {
-					out[i] = map[string]interface{}{"data": nil, "errors": []interface{}{map[string]interface{}{"message": "downstream says no"}}}
+					out[i] = map[string]interface{}{"data": nil, "errors": errs}
 				}
 			}
 			b, _ := json.Marshal(out)
@@ -373,7 +378,7 @@ func TestC11(t *testing.T) {
 		c.Priority = rapid.Permutation(seq(c.N)).Draw(t, "prio")
 		if c.N > 0 && rapid.IntRange(0, 3).Draw(t, "fail") == 0 {
 			c.FailTok = rapid.IntRange(0, c.N-1).Draw(t, "failtok")
-			c.FailKind = rapid.SampledFrom([]string{"transport", "status500", "notjson", "errors"}).Draw(t, "failkind")
+			c.FailKind = rapid.SampledFrom([]string{"transport", "status500", "notjson", "errors", "errors-null-entry"}).Draw(t, "failkind")
 		}
 		if c.N > 0 && rapid.IntRange(0, 4).Draw(t, "files") == 0 {
 			nf := rapid.IntRange(1, minInt(3, c.N)).Draw(t, "nfiles")
